@@ -399,8 +399,10 @@ def real_checker(env, td, sol):
 
 def check_checker(ctx, ad, episodes_quick: int = 24, episodes_thorough: int = 300):
     total = ctx.budget(episodes_quick, episodes_thorough)
+    light_total = ctx.budget(130, 1200)  # further episodes whose mask-generated solutions alone go to the checker
     done_eps = 0
-    while done_eps < total:
+    while done_eps < total + light_total:
+        light = done_eps >= total
         env, var = pick_env(ctx, ad)
         n = ctx.rng.choice(ad.sizes(ctx.tier))
         B = ctx.rng.choice([1, 2, 4])
@@ -416,6 +418,8 @@ def check_checker(ctx, ad, episodes_quick: int = 24, episodes_thorough: int = 30
             cases.append((insts[r], "mask-generated", ep.actions[r]))
             if fin is not None and fin < len(ep.actions[r]):
                 cases.append((insts[r], "mask-generated-unpadded", ep.actions[r][:fin]))
+            if light:
+                continue
             for lab, sol in ad.handbuilt(ctx.rng, insts[r]):
                 cases.append((insts[r], lab, sol))
             for lab, sol in envcorr.corruptions(ad, ctx.rng, insts[r], ep.actions[r]):
@@ -442,6 +446,7 @@ def check_checker(ctx, ad, episodes_quick: int = 24, episodes_thorough: int = 30
                                  {"inst": inst, "label": lab, "actions": sol, "real_accepts": acc, "exception": exc,
                                   "model": f["check"]})
             margin_ok = f.get("near", "0") == "0"
+            ad.checker_case_hook(ctx, inst, lab, sol, f)
             f["_exc"] = exc or ""
             # a cause is attributed only when the faithful model reproduces the real verdict: a checker that
             # deviates from the modelled one is never explained by a known defect
@@ -451,6 +456,12 @@ def check_checker(ctx, ad, episodes_quick: int = 24, episodes_thorough: int = 30
                 viol(ctx, f"{ad.name}:checker-rejects-feasible" + (":" + cause if cause else ""),
                               "the real checker raises for a solution that is feasible by the Lean Spec",
                               {"inst": inst, "label": lab, "actions": sol, "exception": exc, "cause": cause})
+            if lab.startswith("mask-generated") and not acc and f.get("feas") != "1":
+                # the property text: the checker accepts "in particular every solution produced through the mask";
+                # here the mask produced a solution the checker rejects AND the Spec calls infeasible (so C01 fails too)
+                viol(ctx, f"{ad.name}:checker-rejects-mask-generated",
+                     "a solution produced through the real mask is rejected by the real checker (and infeasible by the Lean Spec)",
+                     {"inst": inst, "label": lab, "actions": list(sol), "exception": exc})
             if f.get("feas") == "0" and acc and margin_ok:
                 cause = ad.classify("accepts-infeasible", inst, lab, sol, f) if explained else ""
                 viol(ctx, f"{ad.name}:checker-accepts-infeasible" + (":" + cause if cause else ""),
